@@ -91,6 +91,8 @@ def rand_orig(rng, topic):
 def ev_send(rng, m, i, topic, rt=None):
     rt = rng.choice(REQ_TYPES) if rt is None else rt
     orig = rand_orig(rng, topic)
+    if rt in (5, 6) and rng.random() < 0.8:
+        orig = "-"                      # session updates come without a client message (topic_proxy.go)
     sess = "1" if rng.random() < 0.85 else "0"
     to = m.owner(i, topic)
     if to:
@@ -309,7 +311,7 @@ def gen_scripts(ctx):
     rng = ctx.rng
     quick = ctx.tier == "quick"
     scripts = fixed_scripts()
-    for _ in range(260 if quick else 4000):
+    for _ in range(700 if quick else 8000):
         names = list(rng.choice(NODE_SETS))
         rng.shuffle(names)
         topics = rng.sample(TOPICS, rng.randrange(2, 6))
@@ -475,8 +477,8 @@ def monitors(scripts, table):
                                   % (what, msg["sig"], msg["to"], d.get("cur"), d["raw"])))
             if msg["origin"] is not None and sorted(msg["origin"]) != sorted(r["recv_list"]) and served:
                 fails.append(("gate-rings-differ-served", sc, r["k"],
-                              "%s was stamped under the ring of {%s}; the receiver %s rehashed to {%s} before delivery (event %d) and served it: %s"
-                              % (what, canon(msg["origin"]), msg["to"], canon(r["recv_list"]), r["k"], d["raw"])))
+                              "%s carries the signature of the ring of {%s}; the ring of the receiver %s at delivery (event %d) is that of {%s}, and it served it: %s"
+                              % (what, canon(msg["origin"]), msg["to"], r["k"], canon(r["recv_list"]), d["raw"])))
     return fails
 
 
@@ -517,14 +519,18 @@ def shrink(ctx, sc, law, k):
         return any(f[0] == law for f in monitors([s], {s: out[0]}))
     if not fails(best):
         return sc
-    budget = 80
-    i = len(best) - 2
-    while i >= 0 and budget > 0:
-        cand = best[:i] + best[i + 1:]
-        budget -= 1
-        if fails(cand):
-            best = cand
-        i -= 1
+    budget = 160
+    changed = True
+    while changed and budget > 0:
+        changed = False
+        i = len(best) - 2
+        while i >= 0 and budget > 0:
+            cand = best[:i] + best[i + 1:]
+            budget -= 1
+            if fails(cand):
+                best = cand
+                changed = True
+            i -= 1
     return " ".join(head + best)
 
 
